@@ -41,10 +41,15 @@ func c10PosClass(src, entry, prob, text string, pos syntax.Pos) string {
 	if text == "invalid UTF-8 encoding" {
 		// rune() computes the error offset with the width of the PREVIOUS
 		// rune: right after a 1-byte rune, else off by 1-w(prev).
-		if b := c10FirstInvalidUTF8(src); b >= 0 && off >= b-3 && off <= b+1 {
+		b := c10FirstInvalidUTF8(src)
+		if b >= 0 && off != b && off >= b-3 && off <= b+1 {
 			return "invalid-utf8-offset-uses-previous-rune-width"
 		}
-		return ""
+		if off != b {
+			return ""
+		}
+		// the offset is the offending byte's: any remaining inconsistency is
+		// judged like that of every other error
 	}
 	if int(pos.Line()) != line {
 		return ""
